@@ -739,8 +739,10 @@ def all_distinct(c, ts):
             learn(e, False)
 
 
-def check_same_set(c, R, snaps, prefix, sig):
-    """R (what was read / loaded) is exactly the snapshot list as a set, each once, same fields"""
+def check_same_set(c, R, snaps, prefix, sig, with_state=False):
+    """R (what was read / loaded) is exactly the snapshot list as a set, each once, same fields.
+    with_state: also the very same state (cache level: read() hands back what was stored; at manager
+    level the state clause with its repairs is expected_state_after_load)"""
     sig = list(sig) + ['expected', len(snaps), 'got', len(R)]
     ok = ob(c, len(R) == len(snaps), f'{prefix}_each_once', sig=sig, info='number of transfers differs')
     for k, s in enumerate(snaps):
@@ -752,6 +754,9 @@ def check_same_set(c, R, snaps, prefix, sig):
                 continue
             ob(c, Implies(m, fields_same(r, s)), f'{prefix}_fields_same', sig=sig[:-4],
                info=f'transfer #{k}: local path / sizes / progress / reasons differ')
+            if with_state:
+                ob(c, Implies(m, r.state.VALUE == s['state']), f'{prefix}_state_same', sig=sig[:-4] + [s['state'].name],
+                   info=f'transfer #{k}: stored in {s["state"].name}, read back in {r.state.VALUE.name}')
     for r in R:
         ob(c, Or(*[ident_eq(r, s) for s in snaps]) if snaps else False, f'{prefix}_nothing_else', sig=sig,
            info='a transfer that is not in the written list came back')
@@ -789,7 +794,7 @@ def h_pair(c, lens0=(1, 1), max_len=2, dirs='DD'):
         if not ok:
             return
         c.reach('pair_read')
-        check_same_set(c, R, snaps, 'roundtrip', sig)
+        check_same_set(c, R, snaps, 'roundtrip', sig, with_state=True)
 
 
 # ------------------------------------------------------------------------------------------------
@@ -996,17 +1001,71 @@ def h_restart(c, specs=(('QUEUED', 'D'),), lens=None, legacy=False, lean=False, 
         loop.cleanup()
 
 
+def h_rewrite(c, s0='FAILED', d='D', legacy=False, targets=None):
+    """the same transfer is written twice by one process with a change in between: manager A stores (periodic
+    write), the live transfer gets fresh symbolic values in every persisted field and state s1 (chosen here; s0
+    and s1 both finalized is the 'finished, re-queued, finished differently' case; s1 == s0 the 'same state, other
+    progress / reasons' case), A stops and stores, a new manager loads: it must see the live values of the last
+    write.  legacy: the first record is the one an older version left under the old key."""
+    loop = VLoop()
+    try:
+        with Env(c) as env:
+            s1 = c.pick(targets or STATES, 'state1')
+            sh = dict(FULL, abort_reason=not legacy)
+            t = mk_transfer(c, 0, s0, d, (1, 1), sh, loop)
+            sig = ['rewrite', 'legacy' if legacy else 'current', s0, s1]
+            A = mk_manager(env)
+            if legacy:
+                put_legacy(c, env, [t])
+                ok, _ = guarded(c, 'load_no_exception', sig, loop.run_until_complete, A.load_data())
+                if not ok or len(A.transfers) != 1:
+                    ob(c, not ok or len(A.transfers) == 1, 'loaded_each_once', sig=sig)
+                    return
+                t = A.transfers[0]
+            else:
+                loop.run_until_complete(A.add(t))
+            ok, _ = guarded(c, 'write_no_exception', sig, loop.run_until_complete, A.store_data())
+            if not ok:
+                return
+            fill_fields(c, t, 'm1', s1, FULL, loop)
+            c.note('rewrite', s0, '->', s1)
+            snaps = [snap(t)]
+            ok, _ = guarded(c, 'write_no_exception', sig, loop.run_until_complete, _stop_and_store(A))
+            if not ok:
+                return
+            B = mk_manager(env)
+            ok, _ = guarded(c, 'load_no_exception', sig, loop.run_until_complete, B.load_data())
+            if not ok:
+                return
+            c.reach('loaded')
+            check_loaded(c, loop, B, snaps, sig, full=False)
+    finally:
+        loop.cleanup()
+
+
 # ------------------------------------------------------------------------------------------------
 # sequences write / mutate / remove / add / write on one cache file
 # ------------------------------------------------------------------------------------------------
 
-def h_sequence(c, n=2, steps=3, lens=None, dirs=None, legacy_start=False, first=None):
-    """`first`: index of the first operation (job partition); None = chosen inside the job"""
+# what a "move" mutation does to the state: between finalized states (a finished transfer is re-queued and
+# finishes differently before the next write), and from the queue to a finalized state
+MOVE = {'QUEUED': 'COMPLETE', 'COMPLETE': 'ABORTED', 'ABORTED': 'FAILED', 'FAILED': 'COMPLETE', 'PAUSED': 'ABORTED',
+        'INCOMPLETE': 'FAILED', 'VIRGIN': 'QUEUED', 'INITIALIZING': 'FAILED', 'DOWNLOADING': 'COMPLETE',
+        'UPLOADING': 'COMPLETE'}
+
+
+def h_sequence(c, n=2, steps=3, lens=None, dirs=None, legacy_start=False, first=None, start='QUEUED', flip=0):
+    """`first`: index of the first operation (job partition); None = chosen inside the job.
+    `start`: state every transfer is in at the beginning.  A mutation gives *every* persisted field of the
+    transfer a fresh symbolic value (so old != new is feasible and the solver decides whether the value read
+    back is the one of the live object at the last write); it either keeps the state or moves it along MOVE:
+    kind = (pool index + flip + earlier mutations of that transfer) % 2, 0 = keep, 1 = move."""
     with Env(c) as env:
         lens = lens or [(1, 1)] * (n + 1)
         dirs = dirs or 'D' * (n + 1)
         full0 = dict(FULL, abort_reason=not legacy_start)   # records of an old version carry no abort reason
-        pool = [mk_transfer(c, i, 'QUEUED', dirs[i], tuple(lens[i]), full0 if i == 0 else BARE) for i in range(n + 1)]
+        pool = [mk_transfer(c, i, start, dirs[i], tuple(lens[i]), full0 if i == 0 else BARE) for i in range(n + 1)]
+        nmut = [0] * (n + 1)
         all_distinct(c, pool)
         live = pool[:n]          # pool[n] is the one that may be added later
         cache = TransferShelveCache(env.dir)
@@ -1038,8 +1097,15 @@ def h_sequence(c, n=2, steps=3, lens=None, dirs=None, legacy_start=False, first=
                 persisted_objs = list(live)
             elif op.startswith('mutate'):
                 t = live[int(op[6:])]
+                pi = [i for i, x in enumerate(pool) if x is t][0]
                 muts += 1
-                fill_fields(c, t, f'm{muts}', ['COMPLETE', 'DOWNLOADING', 'ABORTED'][muts % 3], FULL)
+                old = t.state.VALUE.name
+                new = MOVE[old] if (pi + flip + nmut[pi]) % 2 else old
+                nmut[pi] += 1
+                c.note('mutate', pi, old, '->', new)
+                if persisted and any(t is x for x in persisted_objs):
+                    c.reach('mutated_after_write')
+                fill_fields(c, t, f'm{muts}', new, FULL)
             elif op.startswith('remove'):
                 gone.append(live.pop(int(op[6:])))
             else:
@@ -1048,7 +1114,7 @@ def h_sequence(c, n=2, steps=3, lens=None, dirs=None, legacy_start=False, first=
         if not ok:
             return
         c.reach('sequence_read')
-        check_same_set(c, R, persisted, 'roundtrip', sig)
+        check_same_set(c, R, persisted, 'roundtrip', sig, with_state=True)
         for t in gone:
             if any(t is x for x in persisted_objs):
                 continue
@@ -1321,26 +1387,48 @@ def jobs(tier):
                     out.append({'harness': 'restart', 'fn': h_restart,
                                 'params': {'specs': specs, 'lean': True, 'distinct_paths': True, 'legacy': legacy},
                                 'requires': ['loaded']})
+    starts = ['QUEUED', 'FAILED', 'ABORTED', 'COMPLETE']
+    seq_req = ['sequence_read', 'mutated_after_write']
     for legacy_start in (False, True):
-        if q:
-            out.append({'harness': 'sequence', 'fn': h_sequence, 'params': {'n': 2, 'steps': 3, 'legacy_start': legacy_start},
-                        'requires': ['sequence_read']})
-        else:
+        for si, start in enumerate(starts):
+            if q:
+                out.append({'harness': 'sequence', 'fn': h_sequence,
+                            'params': {'n': 2, 'steps': 3, 'legacy_start': legacy_start, 'start': start, 'flip': si % 2},
+                            'requires': seq_req})
+            else:
+                for first in range(6):
+                    for flip in (0, 1):
+                        out.append({'harness': 'sequence', 'fn': h_sequence,
+                                    'params': {'n': 2, 'steps': 4, 'legacy_start': legacy_start, 'first': first,
+                                               'start': start, 'flip': flip},
+                                    'requires': ['sequence_read'] + (['mutated_after_write'] if first == 0 else [])})
+        if not q:
             for first in range(8):
                 out.append({'harness': 'sequence', 'fn': h_sequence,
-                            'params': {'n': 3, 'steps': 3, 'legacy_start': legacy_start, 'first': first},
+                            'params': {'n': 3, 'steps': 3, 'legacy_start': legacy_start, 'first': first,
+                                       'start': starts[first % 4], 'flip': first // 4},
                             'requires': ['sequence_read']})
-            for first in range(6):
-                out.append({'harness': 'sequence', 'fn': h_sequence,
-                            'params': {'n': 2, 'steps': 4, 'legacy_start': legacy_start, 'first': first},
-                            'requires': ['sequence_read']})
+        k = 0
         for lens in ([[2, 1], [1, 2], [1, 1]], [[1, 2], [2, 1], [2, 1]]):
             for dirs in ('DDD', 'DUD'):
                 for first in ([None] if q else range(6)):
+                    k += 1
                     out.append({'harness': 'sequence', 'fn': h_sequence,
                                 'params': {'n': 2, 'steps': 3 if q else 4, 'lens': lens, 'dirs': dirs,
-                                           'legacy_start': legacy_start, 'first': first},
+                                           'legacy_start': legacy_start, 'first': first, 'start': starts[k % 4],
+                                           'flip': (k // 4) % 2},
                                 'requires': ['sequence_read']})
+    # one transfer written twice with a change in between, through the managers
+    fin = ['COMPLETE', 'FAILED', 'ABORTED']
+    for s0 in STATES:
+        for d in 'DU':
+            for legacy in (False, True):
+                if q and legacy and s0 not in fin:
+                    continue
+                out.append({'harness': 'rewrite', 'fn': h_rewrite,
+                            'params': {'s0': s0, 'd': d, 'legacy': legacy,
+                                       'targets': (fin + ['QUEUED', 'DOWNLOADING', 'PAUSED']) if q else None},
+                            'requires': ['loaded']})
     for sc in ('download_download', 'download_paused', 'download_upload', 'upload_removed'):
         for lens in ([[2, 1], [1, 2]], [[1, 1], [1, 1]]):
             out.append({'harness': 'api', 'fn': h_api, 'params': {'lens': lens, 'scenario': sc}, 'requires': ['loaded']})
